@@ -88,6 +88,31 @@ Theorem C01_index_of_nth : forall {D} (deqb : D -> D -> bool), (forall x y, deqb
 Proof. exact (fun D deqb H => index_of_nth deqb H). Qed.
 Print Assumptions C01_index_of_nth.
 
+(* MONOTONE HISTORY of the chunk table: the index written into a file's ref when its chunk was first
+   seen still denotes that chunk in the final table, whatever digests (new or repeated) arrive later;
+   indices are inside the table and no two digests share one *)
+Theorem C01_table_index_stable : forall {D} (deqb : D -> D -> bool), (forall x y, deqb x y = true <-> x = y) ->
+  forall ds later d, In d ds ->
+  index_of deqb d (table_of deqb (ds ++ later)) = index_of deqb d (table_of deqb ds).
+Proof.
+  exact (fun D deqb H ds later d Hin =>
+    eq_trans (f_equal (index_of deqb d) (fold_left_app (add_digest deqb) ds later []))
+             (index_stable_fold deqb H later (table_of deqb ds) d (proj2 (proj2 (table_spec deqb H ds) d) Hin))).
+Qed.
+Print Assumptions C01_table_index_stable.
+
+Theorem C01_table_index_bijective : forall {D} (deqb : D -> D -> bool), (forall x y, deqb x y = true <-> x = y) ->
+  forall l d d', In d l -> In d' l ->
+  index_of deqb d l < length l /\ (index_of deqb d l = index_of deqb d' l -> d = d').
+Proof. exact (fun D deqb H l d d' Hd Hd' => conj (index_of_lt deqb H l d Hd) (index_of_inj deqb H l d d' Hd Hd')). Qed.
+Print Assumptions C01_table_index_bijective.
+
+Example C01_table_concrete :
+  let t1 := table_of N.eqb [5;3;5]%N in
+  let t2 := table_of N.eqb ([5;3;5] ++ [7;3])%N in
+  (t2, index_of N.eqb 5%N t2, index_of N.eqb 3%N t2) = ([5;3;7]%N, index_of N.eqb 5%N t1, index_of N.eqb 3%N t1).
+Proof. vm_compute. reflexivity. Qed.
+
 (* the tie: what the Python arithmetic in snapshot/_chunk_done/restore/_write_file_part means *)
 Theorem C01_tie_touches : forall fs fe cs ce : nat,
   touches fs fe cs ce =
